@@ -322,3 +322,84 @@ func UintNSequences(seed int64, count int) (viol []Violation, evals int) {
 	}
 	return
 }
+
+// specUintNOnTape replays the transcription of UintN on a byte tape from position *pos (zeros beyond the tape)
+func specUintNOnTape(n uint64, data []byte, pos *int) uint64 {
+	size, _, _ := SpecAttempt(n, 0)
+	for {
+		var chunk uint64
+		for i := 0; i < size; i++ {
+			if *pos+i < len(data) {
+				chunk |= uint64(data[*pos+i]) << (8 * uint(i))
+			}
+		}
+		*pos += size
+		if _, acc, val := SpecAttempt(n, chunk); acc {
+			return val
+		}
+	}
+}
+
+// SamplersOnTapes: Samples, Shuffle and Permutation at populations that cross the byte and bit boundaries of their draws on the
+// way down (512, 256, 65536, ...): the swap sequence / the permutation must be the documented Fisher-Yates over UintN draws
+// (Samples: swap(i, i + UintN(n-i)); Permutation: inside-out with UintN(i+1)), on random byte tapes.
+func SamplersOnTapes(seed int64, count int) (viol []Violation, evals int) {
+	rng := rand.New(rand.NewSource(seed))
+	add := func(pred, d string) {
+		if len(viol) < 4 {
+			viol = append(viol, Violation{"C15", pred, d})
+		}
+	}
+	type nm struct{ n, m int }
+	shapes := []nm{{513, 3}, {514, 300}, {600, 600}, {257, 3}, {258, 258}, {300, 60}, {65537, 3}, {65600, 200}, {1025, 1025}, {16, 16}, {129, 129}}
+	for _, sh := range shapes {
+		for c := 0; c < count; c++ {
+			data := make([]byte, 4*sh.m+64)
+			rng.Read(data)
+			// Samples
+			t := &tape{data: data}
+			var swaps [][2]int
+			err := random.NewVerifRand(t.read).Samples(sh.n, sh.m, func(i, j int) { swaps = append(swaps, [2]int{i, j}) })
+			evals++
+			pos := 0
+			ok := err == nil && len(swaps) == sh.m
+			for i := 0; ok && i < sh.m; i++ {
+				j := i + int(specUintNOnTape(uint64(sh.n-i), data, &pos))
+				if swaps[i] != [2]int{i, j} {
+					add("SamplesDefinition", fmt.Sprintf("Samples(%d,%d): swap #%d is %v, Fisher-Yates over the source bytes gives (%d,%d) [seed %d]", sh.n, sh.m, i, swaps[i], i, j, seed))
+					ok = false
+				}
+			}
+			if ok && t.pos != pos {
+				add("SamplesDefinition", fmt.Sprintf("Samples(%d,%d) consumed %d source bytes, the draws need %d [seed %d]", sh.n, sh.m, t.pos, pos, seed))
+			}
+			if err != nil {
+				add("SamplesDefinition", fmt.Sprintf("Samples(%d,%d): %v", sh.n, sh.m, err))
+			}
+			if sh.m != sh.n || sh.n > 1100 {
+				continue
+			}
+			// Shuffle(n) is Samples(n, n); Permutation(n) is the inside-out variant with UintN(i+1)
+			t2 := &tape{data: data}
+			var sw2 [][2]int
+			random.NewVerifRand(t2.read).Shuffle(sh.n, func(i, j int) { sw2 = append(sw2, [2]int{i, j}) })
+			if fmt.Sprint(sw2) != fmt.Sprint(swaps) {
+				add("ShuffleDefinition", fmt.Sprintf("Shuffle(%d) and Samples(%d,%d) differ on the same source bytes [seed %d]", sh.n, sh.n, sh.n, seed))
+			}
+			t3 := &tape{data: data}
+			perm, err := random.NewVerifRand(t3.read).Permutation(sh.n)
+			evals++
+			want := make([]int, sh.n)
+			pos = 0
+			for i := 0; i < sh.n; i++ {
+				j := int(specUintNOnTape(uint64(i+1), data, &pos))
+				want[i] = want[j]
+				want[j] = i
+			}
+			if err != nil || fmt.Sprint(perm) != fmt.Sprint(want) {
+				add("PermutationDefinition", fmt.Sprintf("Permutation(%d) is not the inside-out Fisher-Yates over the source bytes [seed %d]", sh.n, seed))
+			}
+		}
+	}
+	return
+}
